@@ -48,11 +48,12 @@ pub fn cmd_line(c: &Cmd) -> String {
     match c {
         Cmd::Undo => "undo-update".into(),
         Cmd::Update { t, add, rmv } => {
-            let mut s = String::from("clause-update");
-            if let Some(t) = t { s.push_str(&format!(" t {}", t)); }
-            if !add.is_empty() { s.push_str(" add"); for c in add { s.push_str(&format!(" {} 0", fmt_clause(c))); } }
-            if !rmv.is_empty() { s.push_str(" rmv"); for c in rmv { s.push_str(&format!(" {} 0", fmt_clause(c))); } }
-            s
+            // the three parameters in an order that depends on the content only (the protocol evaluates `t` first wherever it stands)
+            let tp = t.map(|t| format!(" t {}", t)).unwrap_or_default();
+            let ap = if add.is_empty() { String::new() } else { format!(" add{}", add.iter().map(|c| format!(" {} 0", fmt_clause(c))).collect::<String>()) };
+            let rp = if rmv.is_empty() { String::new() } else { format!(" rmv{}", rmv.iter().map(|c| format!(" {} 0", fmt_clause(c))).collect::<String>()) };
+            let h = (t.unwrap_or(0) as i64 + add.iter().chain(rmv.iter()).flat_map(|c| c.iter()).map(|l| *l as i64).sum::<i64>()).rem_euclid(3);
+            match h { 0 => format!("clause-update{tp}{ap}{rp}"), 1 => format!("clause-update{ap}{rp}{tp}"), _ => format!("clause-update{rp}{tp}{ap}") }
         }
     }
 }
